@@ -188,6 +188,11 @@ class FieldData:
 
   def _set_existing_field(self, fieldname, value, set_reference = False):
     renaming_connected = False
+    if value is None and not set_reference and \
+        fieldname in self.positional_fieldnames:
+      raise gfapy.ValueError(
+        "The positional field '{}' cannot be removed\n".format(fieldname)+
+        "(None is only accepted as value of a tag, which it deletes)")
     if self._gfa:
       if not set_reference and \
         (fieldname in self.__class__.REFERENCE_FIELDS or \
